@@ -18,6 +18,27 @@ from harness.scenarios import STD, CONSTANTS
 LEVEL = "model_checking"
 
 
+def feq_table(rs, vs, c):
+    """The equilibrium Maxwellian f_eq(r, v) = n0(r) exp(-v^2 / (2 Ti(r))) / sqrt(2 pi Ti(r)) with the tanh profiles of the model
+    (n0 = CN0 exp(-kN0 dRN0 tanh((r-rp)/dRN0)), Ti = CTi exp(-kTi dRTi tanh((r-rp)/dRTi))), written here independently of the
+    code's scalar and vector entry points."""
+    r = np.asarray(rs, dtype=float)[:, None]
+    v = np.asarray(vs, dtype=float)[None, :]
+    n0 = c.CN0 * np.exp(-c.kN0 * c.deltaRN0 * np.tanh((r - c.rp) / c.deltaRN0))
+    ti = c.CTi * np.exp(-c.kTi * c.deltaRTi * np.tanh((r - c.rp) / c.deltaRTi))
+    return n0 * np.exp(-0.5 * v * v / ti) / np.sqrt(2.0 * np.pi * ti)
+
+
+def general_constants():
+    """constants in general position (the defaults make CTi = 1, kTe = kTi, ...: a dropped factor or a twin constant is invisible there)"""
+    from pygyro.initialisation.constants import Constants
+    c = Constants()
+    c.CTi, c.CTe, c.kTe, c.deltaRTe, c.deltaRTi, c.kTi = 0.8, 1.3, 0.4, 1.2, 1.6, 0.3
+    c.rp = 6.5
+    c.getCN0()
+    return c
+
+
 def lcm(a, b):
     return a * b // math.gcd(a, b)
 
@@ -42,15 +63,14 @@ def density_job(comm, shape, nprocs, vspace, a, h, coeffs, dtype, perturbed, out
     h3 = getLayoutHandler(comm, {"v_parallel_2d": [0, 2, 1], "mode_solve": [1, 2, 0]}, list(nprocs), eta[:3])
     f = Grid(eta, [None] * 4, h4, "v_parallel", comm)
     rho = Grid(eta[:3], [None] * 3, h3, "v_parallel_2d", comm, dtype=dtype)
-    c = Constants()
+    c = general_constants()
     xi = [min(max(so.to_int_coord(x, a, h), Fr(vspace.br[0])), Fr(vspace.br[-1])) for x in vg]
     B = np.array([[float(vspace.basis(j, x)) for j in range(vspace.nb)] for x in xi])        # [v node, basis]
     lay = h4.getLayout("v_parallel")          # (r, z, theta, v)
     data = f.getAllData()
     df0 = DensityFinder(6, vb, eta, c)       # an earlier finder on the SAME v spline object must not disturb a later one (nor vice versa)
     df = DensityFinder(6, vb, eta, c)
-    feq = np.empty([shape[0], len(vg)])
-    init.feq_vector(feq, eta[0], eta[3], c.CN0, c.kN0, c.deltaRN0, c.rp, c.CTi, c.kTi, c.deltaRTi)
+    feq = feq_table(eta[0], eta[3], c)
     res = []
     for i, gr in enumerate(range(lay.starts[0], lay.ends[0])):
         for j, gz in enumerate(range(lay.starts[1], lay.ends[1])):
@@ -80,7 +100,7 @@ def equil_job(comm, shape, nprocs, cfile_consts, out):
     from pygyro.initialisation.constants import Constants
     from pygyro import splines as spl
     rk = comm.Get_rank()
-    c = Constants()
+    c = general_constants()
     nv = shape[3]
     brk = np.linspace(c.vMin, c.vMax, nv - 2)
     vb = spl.BSplines(spl.make_knots(brk, 3, False), 3, False, True)
@@ -90,8 +110,7 @@ def equil_job(comm, shape, nprocs, cfile_consts, out):
     h3 = getLayoutHandler(comm, {"v_parallel_2d": [0, 2, 1], "mode_solve": [1, 2, 0]}, list(nprocs), eta[:3])
     f = Grid(eta, [None] * 4, h4, "v_parallel", comm)
     rho = Grid(eta[:3], [None] * 3, h3, "v_parallel_2d", comm, dtype=np.complex128)
-    feq = np.empty([shape[0], len(vg)])
-    init.feq_vector(feq, eta[0], eta[3], c.CN0, c.kN0, c.deltaRN0, c.rp, c.CTi, c.kTi, c.deltaRTi)
+    feq = feq_table(eta[0], eta[3], c)
     lay = h4.getLayout("v_parallel")
     data = f.getAllData()
     for i, gr in enumerate(range(lay.starts[0], lay.ends[0])):
@@ -174,7 +193,7 @@ def run(ctx):
         n = int(np.prod(nprocs))
         out = [None] * n
         res = MPI.run(n, equil_job, policy="random", seed=1, args=([7, 4, 6, 12], nprocs, None, out))
-        events.append({"k": "equil", "ok": bool(res.ok), "zero": bool(res.ok and all(v == 0.0 for v in out)), "err": res.describe()})
+        events.append({"k": "equil", "ok": bool(res.ok), "zero": bool(res.ok and all(v <= 1e-13 for v in out)), "err": res.describe()})
         meta.append({"what": "perturbed density of the equilibrium", "nprocs": nprocs, "max_abs": out})
     rej, _ = ctx.validate_trace("C16Trace", events, what="densities recorded from the real kernels / DensityFinder (%d)" % len(events))
     for j, (e, m) in enumerate(zip(events, meta), 1):
